@@ -285,6 +285,10 @@ class Ctx:
     def assume_positive(self, p):
         c, m, prim = split_content(canon(p))
         self.pos_facts[prim.key()] = (c, m)
+        self.max_fact_terms = max(getattr(self, "max_fact_terms", 0), len(prim.t))
+        if not hasattr(self, "fact_polys"):
+            self.fact_polys = []
+        self.fact_polys.append(p)
 
     def check_deadline(self):
         if self.deadline is not None and time.time() > self.deadline:
@@ -641,6 +645,8 @@ class Poly:
                     continue
                 if gg.real and e % 2 == 0:
                     continue  # even power of a real quantity: >= 0 (treated as positive: generic)
+                if gg.kind == "root" and gg.base_real and e % (2 * L) == 0:
+                    continue  # even power of a real radicand (e.g. 1/det**2)
                 return self._sign_from_facts()
             signs.add(s)
             if len(signs) > 1:
@@ -648,22 +654,31 @@ class Poly:
         return signs.pop()
 
     def _sign_from_facts(self):
+        """Sign from the declared facts: self = c * m * prim and a fact  fc * fm * prim > 0  with the same primitive part."""
         C = ctx()
-        if not C.pos_facts or len(self.t) > 6:
+        if not C.pos_facts or (len(self.t) > max(6, getattr(C, "max_fact_terms", 0)) and not getattr(C, "semantic_facts", False)):
             return None
         c, m, prim = split_content(canon(self))
-        if prim.key() in C.pos_facts:
-            sm = Poly({m: Fraction(1)}).sign_or_none() if m else 1
-            if sm is None:
-                return None
-            return (1 if c > 0 else -1) * sm
-        neg = (-prim)
-        if neg.key() in C.pos_facts:
-            sm = Poly({m: Fraction(1)}).sign_or_none() if m else 1
-            if sm is None:
-                return None
-            return -(1 if c > 0 else -1) * sm
-        return None
+        fact = C.pos_facts.get(prim.key())
+        if fact is None:
+            # semantic match: self == +-fact as an exact identity (definitions unfolded by the zero test)
+            if getattr(C, "semantic_facts", False) and not getattr(C, "_in_fact_check", False):
+                C._in_fact_check = True
+                try:
+                    for f in getattr(C, "fact_polys", []):
+                        if is_zero(self - f, budget=5):
+                            return 1
+                        if is_zero(self + f, budget=5):
+                            return -1
+                finally:
+                    C._in_fact_check = False
+            return None
+        fc, fm = fact
+        sm = Poly({m: Fraction(1)}).sign_or_none() if m else 1
+        sfm = Poly({fm: Fraction(1)}).sign_or_none() if fm else 1
+        if not sm or not sfm:
+            return None
+        return (1 if c > 0 else -1) * (1 if fc > 0 else -1) * sm * sfm
 
     # -- ufunc-style methods (numpy calls these on object arrays) --------------------------------
     def sqrt(self):
@@ -1198,14 +1213,8 @@ def log(x):
     return res
 
 
-def exp(x):
-    x = lift(x)
-    if isinstance(x, Special):
-        return x.exp()
-    if not x.t:
-        return ONE
-    x = canon(x)
-    # exp(c*u0) with u0 primitive: generator exp(u0/12) ** (12 c) when 12c is an integer
+def _exp_atom(x):
+    """exp of one canonical argument: exp(c*u0) = E**(12 c) with E = exp(u0/12) when 12 c is an integer."""
     cont, m, prim = split_content(x)
     u0 = Poly(raw_mul(prim.t, {m: Fraction(1)})) if m else prim
     e12 = cont * L
@@ -1214,6 +1223,23 @@ def exp(x):
         return Poly({((g.gid, int(e12)),): Fraction(1)})
     g = fun_gen("exp", x, positive=x.is_real(), real=x.is_real())
     return Poly({((g.gid, 1),): Fraction(1)})
+
+
+def exp(x):
+    x = lift(x)
+    if isinstance(x, Special):
+        return x.exp()
+    if not x.t:
+        return ONE
+    x = canon(x)
+    # exp(a + b) = exp(a) exp(b): arguments with few terms are split term by term (normal form of the exponential monoid:
+    # phases e^{iG.r}, Gaussians); long arguments stay one atom
+    if 1 < len(x.t) <= 8:
+        r = ONE
+        for m, c in x.t.items():
+            r = r * _exp_atom(Poly({m: c}))
+        return r
+    return _exp_atom(x)
 
 
 def gpow(a, b):
